@@ -661,3 +661,104 @@ Proof. intros Hp Hc. unfold cb_program. rewrite (cb_buffers_cut_invariant p1 p2 
    of the concatenation the program performs *)
 Theorem cb_feed_is_concat b pieces : cb_feed [] (pieces_of b pieces) = cb_fifo (concat_of b pieces).
 Proof. apply (cb_split_many_lemma (pieces_of b pieces) []). reflexivity. Qed.
+
+(* ================================================================================================
+   9. the whole program on hardware streams of several boards, under any cut pattern
+   ================================================================================================ *)
+Definition hw_pieces (boards : list (N * list hw_event)) : buffers :=
+  map (fun be => (fst be, hw_stream (snd be))) boards.
+
+Lemma hw_program_err : forall boards k, hw_program boards = Err k -> k = E_NO_EPOCH0.
+Proof.
+  destruct boards as [|[b evs] r]; intros k; cbn [hw_program]; [discriminate|].
+  destruct (hw_board b evs); [destruct (hw_program r)| |]; intros [= <-]; reflexivity.
+Qed.
+Lemma hw_board_err b evs k : hw_board b evs = Err k -> k = E_NO_EPOCH0.
+Proof. unfold hw_board. destruct (has_marker evs); intros [= <-]; reflexivity. Qed.
+
+Lemma hw_fifos_rows : forall boards, Forall (fun be => hw_wf 0 (snd be)) boards ->
+  (do fs <- cb_fifos (hw_pieces boards); all_rows fs) = hw_program boards.
+Proof.
+  induction boards as [|[b evs] r IH]; intros Hw; [reflexivity|].
+  inversion Hw as [|? ? Hw0 Hwr]; subst. cbn [snd] in Hw0. specialize (IH Hwr).
+  cbn [hw_pieces map fst snd cb_fifos hw_program]. fold (hw_pieces r).
+  pose proof (hw_board_correct b evs Hw0) as Hb.
+  pose proof (cb_board_fifo_no_panic (hw_stream evs)) as Hnp.
+  destruct (cb_board_fifo (hw_stream evs)) as [f|k|]; cbn [bind] in Hb |- *; [| |congruence].
+  - rewrite <- Hb. rewrite board_rows_spec.
+    destruct (cb_fifos (hw_pieces r)) as [fs|k|] eqn:Ef; cbn [bind] in IH |- *.
+    + cbn [all_rows]. rewrite board_rows_spec. cbn [bind]. rewrite all_rows_spec in IH |- *. rewrite <- IH. reflexivity.
+    + rewrite <- IH. symmetry in IH. apply hw_program_err in IH. subst k. reflexivity.
+    + exfalso. eapply cb_fifos_no_panic. eassumption.
+  - rewrite <- Hb. symmetry in Hb. apply hw_board_err in Hb. subst k. reflexivity.
+Qed.
+
+(* boards : the hardware events of every board that has data, in ascending board order;
+   pieces : ANY sequence of bank payloads whose per-board concatenation is the stream of that board *)
+Theorem cb_program_hw boards pieces :
+  StronglySorted N.lt (map fst boards) ->
+  Forall (fun be => hw_wf 0 (snd be)) boards ->
+  (forall b, (if present b pieces then Some (concat_of b pieces) else None) = bt_lookup (hw_pieces boards) b) ->
+  cb_program pieces = hw_program boards.
+Proof.
+  intros Hs Hw Hl. unfold cb_program. destruct (cb_buffers_spec pieces) as [S L].
+  assert (cb_buffers pieces = hw_pieces boards) as ->.
+  { apply sorted_ext; [assumption| |intros b; rewrite L; apply Hl].
+    unfold sorted, keys, hw_pieces. rewrite map_map. cbn [fst]. assumption. }
+  apply hw_fifos_rows. assumption.
+Qed.
+
+(* ---------- rows_complete on the program level, for ANY input ---------- *)
+Theorem cb_rows_complete_lemma pieces rows : cb_program pieces = Ok rows ->
+  exists fs,
+    map fst fs = keys (cb_buffers pieces) /\
+    Forall2 (fun bb bf => exists es t, cb_fifo (snd bb) = (es, []) /\ from_first is_mk0 es = Some (snd bf) /\
+                                      snd bf = MK false 0 :: t) (cb_buffers pieces) fs /\
+    map row_key rows = flat_map (fun bf => ts_keys (fst bf) (snd bf)) fs /\
+    rows = rows_of_fifos fs.
+Proof.
+  intros H. apply cb_program_ok in H. destruct H as (fs & Hf & ->). exists fs.
+  apply cb_fifos_ok in Hf. split; [|split; [|split; [|reflexivity]]].
+  - unfold keys. induction Hf as [|bb bf m fs' [Hk _] _ IH]; [reflexivity|]. cbn [map]. rewrite Hk, IH. reflexivity.
+  - induction Hf as [|bb bf m fs' [_ Hb] _ IH]; constructor; [|assumption].
+    apply cb_board_fifo_ok in Hb. destruct Hb as (es & t & H1 & H2 & H3). eauto.
+  - clear Hf. induction fs as [|[b f] fs IH]; [reflexivity|].
+    unfold rows_of_fifos in *. cbn [flat_map fst snd]. rewrite map_app, IH, rows_spec_keys. reflexivity.
+Qed.
+
+(* ---------- the specification rows, edge by edge ---------- *)
+Definition row_matches (b : N) (e : hw_edge) (r : row) : Prop :=
+  r_board r = b /\ r_channel r = he_ch e /\ r_leading r = negb (he_tr e) /\
+  (forall t, r_time r = Some t -> t = true_time (he_T e)) /\
+  (r_time r = None <-> ~ (he_later e = true /\ in_window e)).
+
+Lemma hw_rows_edges b : forall evs k, Forall2 (row_matches b) (hw_edges_from k evs) (hw_rows_from b k evs).
+Proof.
+  induction evs as [|ev r IH]; intros k; [constructor|].
+  destruct ev as [T ch tr|c|body]; cbn [hw_edges_from hw_rows_from]; try apply IH.
+  destruct (k =? 0); [apply IH|]. constructor; [|apply IH].
+  unfold row_matches, in_window. cbn [r_board r_channel r_leading r_time he_k he_T he_ch he_tr he_later].
+  repeat (split; [reflexivity|]).
+  destruct (has_marker r); cbn [andb].
+  - destruct (N.leb_spec (k * HALF) T); destruct (N.ltb_spec T ((k + 1) * HALF)); cbn [andb]; split;
+      try (intros t [= <-]; reflexivity); try discriminate; split; try discriminate; try tauto; try lia;
+      intros; exfalso; tauto.
+  - split; [discriminate|]. split; [intros _ [Hf _]; discriminate|reflexivity].
+Qed.
+
+Theorem cb_time_correct_lemma boards pieces rows :
+  StronglySorted N.lt (map fst boards) ->
+  Forall (fun be => hw_wf 0 (snd be)) boards ->
+  (forall b, (if present b pieces then Some (concat_of b pieces) else None) = bt_lookup (hw_pieces boards) b) ->
+  cb_program pieces = Ok rows ->
+  exists rr, rows = concat rr /\
+    Forall2 (fun be rs => Forall2 (row_matches (fst be)) (hw_edges (snd be)) rs) boards rr.
+Proof.
+  intros Hs Hw Hl. rewrite (cb_program_hw boards pieces Hs Hw Hl). clear. revert rows.
+  induction boards as [|[b evs] r IH]; intros rows; cbn [hw_program].
+  - intros [= <-]. exists []. split; [reflexivity|constructor].
+  - unfold hw_board. destruct (has_marker evs); [|discriminate].
+    destruct (hw_program r) as [rs'| |]; try discriminate. intros [= <-].
+    destruct (IH rs' eq_refl) as (rr & -> & Hr). exists (hw_rows b evs :: rr). split; [reflexivity|].
+    constructor; [|assumption]. apply hw_rows_edges.
+Qed.
